@@ -872,6 +872,9 @@ class Machine:
 
         track(self.wv)
         for o in ops:
+            if not (self.x_ok_after(*o) and self.y_ok_after(*o)):
+                self.count("R5-skipped-unrepresentable")
+                return
             self.apply(*o)
             track(self.wv)
         self.apply(*g)
@@ -1203,7 +1206,7 @@ def _run_c08_sequence(M, seq):
         if op == "normalize_y" and not np.max(y) > np.min(y):
             M.count("exhaustive-skipped-inapplicable")
             return
-        if n < 2 or n * (a.get("n", 1)) > MAX_LEN:
+        if n < 2 or n * (a.get("n", 1)) > MAX_LEN or not (M.x_ok_after(op, a) and M.y_ok_after(op, a)):
             M.count("exhaustive-skipped-inapplicable")
             return
         M.apply(op, a)
@@ -1220,6 +1223,8 @@ def replayable(M, op, a):
     x, y = M.cur()
     if op not in REPLAYABLE:
         return False
+    if not (M.x_ok_after(op, a) and M.y_ok_after(op, a)):
+        return False            # same representability precondition as for freshly generated operations
     if op == "integral_match":
         return M.match_ready() and "fixed_points_in_x" not in a and "fixed_points_indices_in_x" not in a
     if op == "recreate_from_average":
